@@ -9,7 +9,7 @@ import shutil
 
 from .common import PYTHON, REPO, VERIF, PeerGone, PeerTimeout, recv_msg, send_msg
 
-OP_TIMEOUT_S = 240
+OP_TIMEOUT_S = 720
 
 
 class HarnessError(Exception):
@@ -38,6 +38,7 @@ class Zygote:
             [PYTHON, os.path.join(VERIF, "sim", "zygote.py"), str(b.fileno()), errlog],
             pass_fds=[b.fileno()], env=env, cwd="/", stdin=subprocess.DEVNULL,
             stdout=subprocess.DEVNULL, stderr=subprocess.DEVNULL, close_fds=True,
+            start_new_session=True,      # own process group: sessions (forked children) can be killed with the zygote
         )
         b.close()
         self.sock = a
@@ -46,6 +47,17 @@ class Zygote:
         self.info = None
         if wait:
             self.wait_ready()
+
+    def kill_group(self):
+        """Kill the zygote and every session it forked (a stuck session must never outlive its lane)."""
+        try:
+            os.killpg(self.proc.pid, signal.SIGKILL)
+        except Exception:
+            pass
+        try:
+            self.proc.kill()
+        except Exception:
+            pass
 
     def wait_ready(self):
         if self.info is not None:
@@ -67,6 +79,7 @@ class Zygote:
         try:
             hello = recv_msg(self.sock, OP_TIMEOUT_S)
         except (PeerGone, PeerTimeout) as e:
+            self.kill_group()
             raise HarnessError("session did not start: %s" % type(e).__name__)
         if "died" in hello:
             raise HarnessError("session died during start: %r" % (hello,))
@@ -92,7 +105,8 @@ class Zygote:
         try:
             self.proc.wait(timeout=5)
         except Exception:
-            self.proc.kill()
+            pass
+        self.kill_group()
         try:
             self.sock.close()
         except Exception:
@@ -120,6 +134,7 @@ class Session:
             except Exception:
                 pass
             self.alive = False
+            self.zy.kill_group()
             raise HarnessError("session op timed out (wall clock safety net)")
         except PeerGone:
             self.alive = False
